@@ -19,6 +19,27 @@ NOTES = {
     ("C16", "m1"): "missed at first: path-addressed routes never carried an `index_name` in the body; decoy field and the /config route added",
     ("C19", "m1"): "missed at first: hostile names had `..` only in leading position; interior `..` names added",
     ("C14", "m2"): "agent's demo no longer forces the interleaving after fix c512c9c; confirmed by the check",
+    ("C02", "m3"): "needs a re-created index with another precision/dimension; shows as a failed clean restart: caught by C01 (201 of 15 000 runs), outside C02's crash images at quick size",
+    ("C02", "m4"): "missed at first: the image right after a forced vacuum was almost never taken (operator-precedence slip in the image budget); now 10 % of the runs catch it",
+    ("C03", "m4"): "missed at first: recovery was only run once; a second recovery of the repaired directory added",
+    ("C05", "m3"): "missed at first: rejected deletes never named a graph-only entity; rebased by hand after fix 06479f6",
+    ("C07", "m3"): "missed at first: clipped queries are not judged, which hid a quantiser trained on one vector; quantiser-range oracle after VCompress(int8) and a 'peaked' data set added",
+    ("C08", "m4"): "missed at first: every vector had some metadata; vectors with nil / empty metadata added",
+    ("C09", "m4"): "missed at first: hybrid queries always asked for k=50; k from 1 to 50 added (with the text-leg-only rule for documents outside the vector leg)",
+    ("C11", "m4"): "missed at first: unlink rarely named an existing edge together with its inverse; unlink now prefers existing edges, more restarts",
+    ("C12", "m4"): "missed at first: no graph vacuum in C12 histories; graph retention + vacuum before the deletes added",
+    ("C13", "m3"): "missed at first: no automatic snapshot was ever due; a third of the runs now have one due at every tick. Rebased patches: m1, m4 (fix 06479f6 touched the same functions)",
+    ("C13", "m1"): "rebased by hand after fix 06479f6",
+    ("C13", "m4"): "rebased by hand after fix 06479f6",
+    ("C14", "m3"): "missed at first: runs acknowledged ~20 writes; bursts larger than the writer's buffer added",
+    ("C14", "m4"): "caught in 9 of 10 quick runs at first (schedule-dependent window); admin mix biased to compaction and quick size raised: 7-8 violating runs per quick run",
+    ("C15", "m3"): "missed at first: memories were only inserted with VAdd; batch / import insertion and a stored-creation-time oracle added",
+    ("C16", "m3"): "missed at first: graph routes never spelled a node id as <index>::<id>; added, with link targets that name their index",
+    ("C16", "m4"): "**blind spot**: a token already seen by the same server process must expire 90 days later; simulated time only passes that far while the engine is closed (its 100 ms tickers make 90 live days cost minutes of real time per run), and a restart builds a new provider. Not caught, not claimed",
+    ("C17", "m3"): "missed at first: the forbidden-prompt index never had time decay; memory-enabled firewall index with 30-day-old entries added",
+    ("C19", "m3"): "missed at first: unknown ids were always all-unknown; 'one unknown id' mutation added",
+    ("C19", "m4"): "missed at first: no route carried a duration field; /config route added",
+    ("C06", "m3"): "same change as C08 m2 (independent agents)",
 }
 print("| prop | change | what it breaks (agent's title) | demo confirmed | caught by | note |")
 print("|---|---|---|---|---|---|")
